@@ -13,6 +13,13 @@ open CC CC.Buffer CC.Gen.BlockBufferSrc
 
 theorem src_bb_clean : blockbuffer_errors = [] := rfl
 
+/-- which methods `impl BlockBuffer` has, which of them are not translated (`input_blocks`: reinterprets the input through a
+    raw pointer; unused by the workspace), and the fields of the struct -/
+theorem src_bb_inventory :
+    bb_methods = ["input_block", "input_blocks", "input_lazy", "digest_pad", "len64_padding_be", "len64_padding_le",
+                  "len128_padding_be", "pad_with", "size", "position", "remaining", "reset"] ∧
+    bb_untranslated = ["input_blocks"] ∧ bb_struct_fields = ["buffer", "pos"] := ⟨rfl, rfl, rfl⟩
+
 /-! ## the prelude combinators vs. the hand model's loops -/
 
 @[simp] theorem Out_bind_ok' {α β} (a : α) (f : α → Out β) : Out.bind (.ok a) f = f a := rfl
